@@ -212,13 +212,16 @@ def check_case(ctx, case):
                     pass
             for bx in case["boxes"]:
                 x0, y0, x1, y1 = bx
-                r = guarded("intersects_bounds", lambda: (ddf.geometry.intersects_bounds(tuple(bx)).compute().values,
-                                                          twin.geometry.intersects_bounds(tuple(bx)).values))
-                if r is not None:
-                    sig("intersects_bounds")
-                    if not _arr_eq(r[0], r[1]):
-                        viol("values", "dask-vs-pandas:intersects_bounds", r[1].tolist()[:20], r[0].tolist()[:20],
-                             {"box": bx})
+                # the box with its corners in every order (C01: the answer does not depend on it)
+                for cname, cb in (("", bx), (":reversed-corners", [x1, y1, x0, y0]), (":x-reversed", [x1, y0, x0, y1]),
+                                  (":y-reversed", [x0, y1, x1, y0])):
+                    r = guarded("intersects_bounds", lambda: (ddf.geometry.intersects_bounds(tuple(cb)).compute().values,
+                                                              twin.geometry.intersects_bounds(tuple(bx)).values))
+                    if r is not None:
+                        sig("intersects_bounds" + cname)
+                        if not _arr_eq(r[0], r[1]):
+                            viol("values", "dask-vs-pandas:intersects_bounds" + cname, r[1].tolist()[:20],
+                                 r[0].tolist()[:20], {"box": cb})
                 for series in (False, True):
                     r = guarded("cx", lambda: ((ddf.geometry if series else ddf).cx[x0:x1, y0:y1].compute(),
                                                (twin.geometry if series else twin).cx[x0:x1, y0:y1]))
